@@ -573,6 +573,7 @@ class Harness:
         t = self.tmpls[ti]
         obj = self.objs[ti]
         raise_at = op[5] if name == "render_raise" else None
+        self.cur_x = x
         mt, mtext, updates, edge = self.model_render(ti, x, k, pk, raise_at, True)
         self.ticks = []
         self.raise_at = raise_at
@@ -757,6 +758,9 @@ class Harness:
             self.probe("args-checked")
             if self.backend == "simrecctx" and ctx is None:
                 self.flag("backend-args", "%s: backend asks for the context (pass_context) but get_or_create(%r) got none" % (label, key), "context")
+            elif self.backend == "simrecctx" and ctx.get("x") != self.cur_x:
+                self.flag("backend-args", "%s: get_or_create(%r) was handed a context whose x is %r: not the context of this render"
+                          % (label, key, ctx.get("x")), "context")
             if self.backend == "simrec" and ctx is not None:
                 self.flag("backend-args", "%s: backend did not ask for the context but got one" % label, "context")
             if got != want or any(type(got.get(a)) is not int for a in ("timeout",) if a in got):
